@@ -418,6 +418,12 @@ def run(chk):
                     if not tr or a.get("k") != "call" or a.get("name") not in ("bare_equal", "bare_equal_type_info") or not a.get("args"):
                         continue
                     o = strip_casts(a.get("obj") or {})
+                    if o.get("k") == "ref" and o.get("rk") in ("local", "condvar"):
+                        # the type named first: `const Type_Info &ti = box.get_type_info();` (initialised once, never assigned)
+                        from ..paths import ref_inits
+                        v = ref_inits(f).get(o.get("vid"))
+                        if v is not None and v.get("init") is not None and not any(y.get("k") == "assign" and strip_casts(y["lhs"]).get("vid") == o.get("vid") for y in walk(f["body"])):
+                            o = strip_casts(v["init"])
                     if not (o.get("k") == "call" and o.get("name") == "get_type_info" and o.get("obj") is not None and same_var(o["obj"], src[0]["obj"])):
                         continue
                     arg = strip_casts(a["args"][0])
